@@ -276,7 +276,7 @@ func c18Content(prog *pgProgram, out *c18Out, maxTx uint32, tag string) (bool, s
 func runC18(c *Ctx) {
 	c.Rule("seeded request programs (as c02, restricted so that answers cannot depend on worker timing: handles used only after their OPEN reply, reads only on files nothing writes, " +
 		"each written file opened once) of 8..30 requests with READs up to 262144 bytes on files of distinct byte patterns, WRITEs up to 250000 bytes, commands; serial (one request at a time) and " +
-		"pipelined (request server: gated backend, the same seeded gate schedule for both runs); MaxTxPacket default/32768/65536/262144; both servers; each case = the program run with the allocator off and on. " +
+		"pipelined (request server: gated backend with the same seeded gate schedule for both runs, a third with open gates; half of the pipelined cases with a reader that takes the response stream in 2 KiB pieces so that sends last longer); MaxTxPacket default/32768/65536/262144; both servers; each case = the program run with the allocator off and on. " +
 		"kind maxtx_over: MaxTxPacket above 262144 and a READ of that length, in a child process. non-trivial = the program has at least 2 DATA answers of different files or a DATA answer and a WRITE, " +
 		"and at least 3 READ/WRITE requests")
 	nProg := 160
@@ -300,8 +300,9 @@ func runC18(c *Ctx) {
 					}
 					big := maxTx >= 65536 || pi%2 == 0
 					slow := !serial && pi%2 == 1
-					req := fmt.Sprintf("diff rs=%v maxtx=%d serial=%v seed=%d depth=%d big=%v slow=%v", reqServer, maxTx, serial, seed, depth, big, slow)
-					n := c.Case("diff", kvs("srv", c02Cfg{reqServer: reqServer}.name()), kvx("maxtx", uint64(maxTx)), kvb("serial", serial), kvb("slowreader", slow), kvx("seed", uint64(seed)), kvi("depth", depth))
+					gated := reqServer && !serial && pi%3 != 2 // a third of the pipelined request-server cases run with open gates (natural timing)
+					req := fmt.Sprintf("diff rs=%v maxtx=%d serial=%v seed=%d depth=%d big=%v slow=%v gated=%v", reqServer, maxTx, serial, seed, depth, big, slow, gated)
+					n := c.Case("diff", kvs("srv", c02Cfg{reqServer: reqServer}.name()), kvx("maxtx", uint64(maxTx)), kvb("serial", serial), kvb("gated", gated), kvb("slowreader", slow), kvx("seed", uint64(seed)), kvi("depth", depth))
 					ans, alive := child.ask(req, 120*time.Second)
 					f := strings.SplitN(ans, "|", 4)
 					if !alive || len(f) != 4 {
@@ -370,12 +371,12 @@ func c18Diff(kv map[string]string) string {
 	}
 	kOff, kOn := c02Cfg{reqServer, false, maxTx}, c02Cfg{reqServer, true, maxTx}
 	p0, p1 := gen(), gen()
-	slow := kv["slow"] == "true"
-	off, err := c18Exec(p0, kOff, !serial, seed, slow)
+	slow, gated := kv["slow"] == "true", kv["gated"] == "true"
+	off, err := c18Exec(p0, kOff, gated, seed, slow)
 	if err != nil {
 		return "FAIL|harness-setup: " + err.Error() + "|-|"
 	}
-	on, err := c18Exec(p1, kOn, !serial, seed, slow)
+	on, err := c18Exec(p1, kOn, gated, seed, slow)
 	if err != nil {
 		return "FAIL|harness-setup: " + err.Error() + "|-|"
 	}
